@@ -136,6 +136,14 @@ def cases():
         xsd(f"deep-unclosed:depth={depth}", "<xs:sequence>" * depth)
         out.append((f"deep-in-imported-file:depth={depth}", {"a.xsd": schema('<xs:import namespace="http://zv.test/b" schemaLocation="b.xsd"/>'),
                                                              "b.xsd": "<b a='>'>" * depth + "</b>" * depth}, "a.xsd"))
+    # ---- long chains of forward references: every type extends (or refers to) the one declared after it
+    for depth in (300, 6000):
+        chain = "".join(f'<xs:complexType name="T{i}"><xs:complexContent><xs:extension base="t:T{i + 1}"><xs:sequence><xs:element name="e{i}" '
+                        f'type="xs:int"/></xs:sequence></xs:extension></xs:complexContent></xs:complexType>' for i in range(depth))
+        xsd(f"forward-base-chain:depth={depth}", chain + f'<xs:complexType name="T{depth}"><xs:sequence><xs:element name="last" type="xs:int"/></xs:sequence></xs:complexType>')
+        chain = "".join(f'<xs:element name="E{i}"><xs:complexType><xs:sequence><xs:element ref="t:E{i + 1}" minOccurs="0"/></xs:sequence></xs:complexType></xs:element>'
+                        for i in range(depth))
+        xsd(f"forward-ref-chain:depth={depth}", chain + f'<xs:element name="E{depth}" type="xs:int"/>')
     # ---- root kinds
     out.append(("root-not-schema", {"a.xsd": "<foo><bar/></foo>"}, "a.xsd"))
     out.append(("root-schema-wrong-ns", {"a.xsd": '<schema><complexType name="C"><sequence><element name="a" type="string"/></sequence></complexType></schema>'}, "a.xsd"))
